@@ -6,6 +6,7 @@ import (
 	"sort"
 	"strconv"
 	"strings"
+	"sync"
 
 	"github.com/whatap/golib/lang/pack/udp"
 	"github.com/whatap/golib/util/urlutil"
@@ -17,28 +18,43 @@ type ptype struct {
 	name string
 	code uint8
 	mk   func() udp.UdpPack // the constructor NewT()
+	zero func() udp.UdpPack // new(T): no code of the implementation runs (reflection only)
+}
+
+// ctorPanics: constructors that panicked (reported once by main)
+var ctorPanics sync.Map
+
+// new calls the constructor under a guard; a panicking constructor yields new(T)
+func (pt *ptype) new() udp.UdpPack {
+	var p udp.UdpPack
+	o := vh.Guard(func() { p = pt.mk() })
+	if !o.OK() || p == nil || reflect.ValueOf(p).IsNil() {
+		ctorPanics.Store(pt.name, o.Panic)
+		return pt.zero()
+	}
+	return p
 }
 
 var ptypes = []ptype{
-	{"UdpTxStartPack", udp.TX_START, func() udp.UdpPack { return udp.NewUdpTxStartPack() }},
-	{"UdpTxEndPack", udp.TX_END, func() udp.UdpPack { return udp.NewUdpTxEndPack() }},
-	{"UdpTxStartEndPack", udp.TX_START_END, func() udp.UdpPack { return udp.NewUdpTxStartEndPack() }},
-	{"UdpTxSqlPack", udp.TX_SQL, func() udp.UdpPack { return udp.NewUdpTxSqlPack() }},
-	{"UdpTxSqlParamPack", udp.TX_SQL_PARAM, func() udp.UdpPack { return udp.NewUdpTxSqlParamPack() }},
-	{"UdpTxDbcPack", udp.TX_DB_CONN, func() udp.UdpPack { return udp.NewUdpTxDbcPack() }},
-	{"UdpTxHttpcPack", udp.TX_HTTPC, func() udp.UdpPack { return udp.NewUdpTxHttpcPack() }},
-	{"UdpTxErrorPack", udp.TX_ERROR, func() udp.UdpPack { return udp.NewUdpTxErrorPack() }},
-	{"UdpTxMessagePack", udp.TX_MSG, func() udp.UdpPack { return udp.NewUdpTxMessagePack() }},
-	{"UdpTxSecureMessagePack", udp.TX_SECURE_MSG, func() udp.UdpPack { return udp.NewUdpTxSecureMessagePack() }},
-	{"UdpTxMethodPack", udp.TX_METHOD, func() udp.UdpPack { return udp.NewUdpTxMethodPack() }},
-	{"UdpTxResultSetPack", udp.TX_RESULT_SET, func() udp.UdpPack { return udp.NewUdpTxResultSetPack() }},
-	{"UdpTxParamPack", udp.TX_PARAM, func() udp.UdpPack { return udp.NewUdpTxParamPack() }},
-	{"UdpActiveStackPack1", udp.ACTIVE_STACK_1, func() udp.UdpPack { return udp.NewUdpActiveStackPack1() }},
-	{"UdpActiveStackPack", udp.ACTIVE_STACK, func() udp.UdpPack { return udp.NewUdpActiveStackPack() }},
-	{"UdpActiveStatsPack", udp.ACTIVE_STATS, func() udp.UdpPack { return udp.NewUdpActiveStatsPack() }},
-	{"UdpDBConPoolPack", udp.DBCONN_POOL, func() udp.UdpPack { return udp.NewUdpDBConPoolPack() }},
-	{"UdpConfigPack", udp.CONFIG_INFO, func() udp.UdpPack { return udp.NewUdpConfigPack() }},
-	{"UdpRelayPack", udp.RELAY_PACK, func() udp.UdpPack { return udp.NewUdpRelayPack() }},
+	{"UdpTxStartPack", udp.TX_START, func() udp.UdpPack { return udp.NewUdpTxStartPack() }, func() udp.UdpPack { return new(udp.UdpTxStartPack) }},
+	{"UdpTxEndPack", udp.TX_END, func() udp.UdpPack { return udp.NewUdpTxEndPack() }, func() udp.UdpPack { return new(udp.UdpTxEndPack) }},
+	{"UdpTxStartEndPack", udp.TX_START_END, func() udp.UdpPack { return udp.NewUdpTxStartEndPack() }, func() udp.UdpPack { return new(udp.UdpTxStartEndPack) }},
+	{"UdpTxSqlPack", udp.TX_SQL, func() udp.UdpPack { return udp.NewUdpTxSqlPack() }, func() udp.UdpPack { return new(udp.UdpTxSqlPack) }},
+	{"UdpTxSqlParamPack", udp.TX_SQL_PARAM, func() udp.UdpPack { return udp.NewUdpTxSqlParamPack() }, func() udp.UdpPack { return new(udp.UdpTxSqlParamPack) }},
+	{"UdpTxDbcPack", udp.TX_DB_CONN, func() udp.UdpPack { return udp.NewUdpTxDbcPack() }, func() udp.UdpPack { return new(udp.UdpTxDbcPack) }},
+	{"UdpTxHttpcPack", udp.TX_HTTPC, func() udp.UdpPack { return udp.NewUdpTxHttpcPack() }, func() udp.UdpPack { return new(udp.UdpTxHttpcPack) }},
+	{"UdpTxErrorPack", udp.TX_ERROR, func() udp.UdpPack { return udp.NewUdpTxErrorPack() }, func() udp.UdpPack { return new(udp.UdpTxErrorPack) }},
+	{"UdpTxMessagePack", udp.TX_MSG, func() udp.UdpPack { return udp.NewUdpTxMessagePack() }, func() udp.UdpPack { return new(udp.UdpTxMessagePack) }},
+	{"UdpTxSecureMessagePack", udp.TX_SECURE_MSG, func() udp.UdpPack { return udp.NewUdpTxSecureMessagePack() }, func() udp.UdpPack { return new(udp.UdpTxSecureMessagePack) }},
+	{"UdpTxMethodPack", udp.TX_METHOD, func() udp.UdpPack { return udp.NewUdpTxMethodPack() }, func() udp.UdpPack { return new(udp.UdpTxMethodPack) }},
+	{"UdpTxResultSetPack", udp.TX_RESULT_SET, func() udp.UdpPack { return udp.NewUdpTxResultSetPack() }, func() udp.UdpPack { return new(udp.UdpTxResultSetPack) }},
+	{"UdpTxParamPack", udp.TX_PARAM, func() udp.UdpPack { return udp.NewUdpTxParamPack() }, func() udp.UdpPack { return new(udp.UdpTxParamPack) }},
+	{"UdpActiveStackPack1", udp.ACTIVE_STACK_1, func() udp.UdpPack { return udp.NewUdpActiveStackPack1() }, func() udp.UdpPack { return new(udp.UdpActiveStackPack1) }},
+	{"UdpActiveStackPack", udp.ACTIVE_STACK, func() udp.UdpPack { return udp.NewUdpActiveStackPack() }, func() udp.UdpPack { return new(udp.UdpActiveStackPack) }},
+	{"UdpActiveStatsPack", udp.ACTIVE_STATS, func() udp.UdpPack { return udp.NewUdpActiveStatsPack() }, func() udp.UdpPack { return new(udp.UdpActiveStatsPack) }},
+	{"UdpDBConPoolPack", udp.DBCONN_POOL, func() udp.UdpPack { return udp.NewUdpDBConPoolPack() }, func() udp.UdpPack { return new(udp.UdpDBConPoolPack) }},
+	{"UdpConfigPack", udp.CONFIG_INFO, func() udp.UdpPack { return udp.NewUdpConfigPack() }, func() udp.UdpPack { return new(udp.UdpConfigPack) }},
+	{"UdpRelayPack", udp.RELAY_PACK, func() udp.UdpPack { return udp.NewUdpRelayPack() }, func() udp.UdpPack { return new(udp.UdpRelayPack) }},
 }
 
 func typeByName(n string) *ptype {
@@ -93,7 +109,7 @@ func fieldsOf(p udp.UdpPack) []fref {
 
 func init() {
 	for _, pt := range ptypes {
-		fieldsOf(pt.mk()) // fill the cache before goroutines start
+		fieldsOf(pt.zero()) // fill the cache before goroutines start (no implementation code runs here)
 	}
 }
 
